@@ -107,3 +107,383 @@ Section Bridge.
     - unfold parse_cells. rewrite E. reflexivity.
   Qed.
 End Bridge.
+
+(* ================================================================== *)
+(* cellcard.split on an explicit cell card, from its text              *)
+
+Ltac ascii_cases c :=
+  let b0 := fresh in let b1 := fresh in let b2 := fresh in let b3 := fresh in
+  let b4 := fresh in let b5 := fresh in let b6 := fresh in let b7 := fresh in
+  destruct c as [b0 b1 b2 b3 b4 b5 b6 b7]; destruct b0, b1, b2, b3, b4, b5, b6, b7.
+
+(* a character that cannot start the options: neither a letter nor a star *)
+Definition nos (c : ascii) : bool := negb (Ascii.eqb c "*" || is_letter c).
+Definition nonblank (c : ascii) : bool := negb (is_blank c).
+
+Lemma digit_nos c : is_digit c = true -> nos c = true /\ nonblank c = true.
+Proof. ascii_cases c; cbv; intros H; try discriminate; split; reflexivity. Qed.
+
+Lemma all_digits_chars s : all_digits s = true -> all_chars is_digit s = true.
+Proof. induction s as [|c r IH]; [reflexivity|]. cbn. intros H. apply andb_true_iff in H. destruct H as [H1 H2]. rewrite H1, (IH H2). reflexivity. Qed.
+
+Lemma all_chars_impl (p q : ascii -> bool) s :
+  (forall c, p c = true -> q c = true) -> all_chars p s = true -> all_chars q s = true.
+Proof.
+  intros Hpq. induction s as [|c r IH]; [reflexivity|]. cbn. intros H.
+  apply andb_true_iff in H. destruct H as [H1 H2]. rewrite (Hpq c H1), (IH H2). reflexivity.
+Qed.
+
+(* ---- split() ---- *)
+Lemma split_nb w : forall rest cur,
+  all_chars nonblank w = true ->
+  split_ws_aux (w ++ rest) cur = split_ws_aux rest (srev_aux w cur).
+Proof.
+  induction w as [|c r IH]; intros rest cur H; [reflexivity|].
+  cbn [all_chars] in H. apply andb_true_iff in H. destruct H as [Hc Hr].
+  cbn [append split_ws_aux srev_aux]. unfold nonblank, is_blank in Hc.
+  destruct (Ascii.eqb c " "); [discriminate|]. apply IH. exact Hr.
+Qed.
+
+Lemma split_ws_word w rest :
+  all_chars nonblank w = true -> is_empty w = false ->
+  split_ws (w ++ String " " rest) = w :: split_ws rest.
+Proof.
+  intros Hw Hne. unfold split_ws. rewrite (split_nb w _ "" Hw). cbn [split_ws_aux].
+  replace (Ascii.eqb " " " ") with true by reflexivity.
+  rewrite (srev_aux_nonempty_word w Hne). f_equal. apply srev_involutive.
+Qed.
+
+Lemma split_ws_aux_nonnil s : forall cur,
+  (is_empty cur = false \/ exists x c r, s = (x ++ String c r)%string /\ nonblank c = true) ->
+  split_ws_aux s cur <> [].
+Proof.
+  induction s as [|d t IH]; intros cur H.
+  - cbn. destruct H as [H|(x & c & r & E & _)]; [rewrite H; discriminate|destruct x; discriminate].
+  - cbn [split_ws_aux]. destruct (Ascii.eqb d " ") eqn:Ed.
+    + destruct (is_empty cur) eqn:Ec; [|discriminate].
+      apply IH. right. destruct H as [H|(x & c & r & E & Hc)]; [discriminate|].
+      destruct x as [|x0 x'].
+      * cbn in E. injection E as -> ->. unfold nonblank, is_blank in Hc. rewrite Ed in Hc. discriminate.
+      * cbn in E. injection E as _ ->. exists x', c, r. split; [reflexivity|exact Hc].
+    + apply IH. left. reflexivity.
+Qed.
+
+(* ---- re_options ---- *)
+Lemma split_options_pre pre opts :
+  all_chars nos pre = true -> starts_option opts = true ->
+  split_options (pre ++ String " " opts) = ((pre ++ " ")%string, opts).
+Proof.
+  intros Hp Ho. induction pre as [|c r IH].
+  - cbn [append split_options]. unfold is_blank. replace (Ascii.eqb " " " ") with true by reflexivity.
+    rewrite orb_true_r, Ho. reflexivity.
+  - cbn [all_chars] in Hp. apply andb_true_iff in Hp. destruct Hp as [Hc Hr].
+    cbn [append split_options].
+    assert (starts_option (r ++ String " " opts) = false) as Hs.
+    { destruct r as [|d r']; [reflexivity|]. cbn [append starts_option].
+      cbn [all_chars] in Hr. apply andb_true_iff in Hr. destruct Hr as [Hd _].
+      unfold nos in Hd. apply negb_true_iff in Hd. exact Hd. }
+    rewrite Hs, andb_false_r, (IH Hr). reflexivity.
+Qed.
+
+(* ---- LIKE_RE finds nothing in a text without letters ---- *)
+Definition nonletter (c : ascii) : bool := negb (is_letter c).
+
+Lemma lower_nonletter c : nonletter c = true -> lower_char c = c /\ Ascii.eqb c "l" = false.
+Proof. ascii_cases c; cbv; intros H; try discriminate; split; reflexivity. Qed.
+
+Lemma like_target_none s : all_chars nonletter s = true -> like_target s = None.
+Proof.
+  induction s as [|c r IH]; intros H; [reflexivity|].
+  cbn [all_chars] in H. apply andb_true_iff in H. destruct H as [Hc Hr].
+  cbn [like_target]. unfold like_here. cbn [String.prefix].
+  destruct (ascii_dec "l" c) as [E|_].
+  - subst c. discriminate.
+  - exact (IH Hr).
+Qed.
+
+Lemma lower_keeps_nonletter s : all_chars nonletter s = true -> lower s = s.
+Proof.
+  induction s as [|c r IH]; intros H; [reflexivity|].
+  cbn [all_chars] in H. apply andb_true_iff in H. destruct H as [Hc Hr].
+  cbn [lower]. rewrite (proj1 (lower_nonletter c Hc)), (IH Hr). reflexivity.
+Qed.
+
+Section CellText.
+  Context {T : Type} (Sc : Scalar T) (P : prims T).
+
+  (* an explicit void cell card as Card.content() returns it:
+       name, blank, material, blank, geometry, blank, options
+     name = digits; material = a word without letter or star that float() reads
+     as 0; geometry = any text without letter or star (blanks, parentheses,
+     colons, '#', signs, digits); options start with a letter or a star.
+     cellcard.split + get_cells + LIKE_RE give an explicit card with these parts. *)
+  Theorem void_card_text name m G opts z :
+    all_digits name = true -> is_empty name = false ->
+    all_chars nos m = true -> all_chars nonblank m = true -> is_empty m = false ->
+    fl P m = Some z -> seqb Sc z (s0 Sc) = true ->
+    all_chars nos G = true -> starts_option opts = true ->
+    card_of_text Sc P (name ++ " " ++ m ++ " " ++ G ++ " " ++ opts) =
+    Ok (Z.of_N (parse_digits name 0%N),
+        (Explicit (" " ++ m)%string (" " ++ G ++ " ")%string, opts)).
+  Proof.
+    intros Hn Hne Hm Hmb Hme Hfl Hz HG Ho.
+    pose proof (all_digits_chars name Hn) as Hnd.
+    assert (all_chars nos name = true /\ all_chars nonblank name = true) as [Hnn Hnb].
+    { split; eapply all_chars_impl; try exact Hnd; intros c Hc; apply (digit_nos c Hc). }
+    set (txt := (name ++ " " ++ m ++ " " ++ G ++ " " ++ opts)%string).
+    (* the words *)
+    assert (exists x xs, split_ws txt = name :: m :: x :: xs) as (x & xs & Hw).
+    { unfold txt. change (name ++ " " ++ m ++ " " ++ G ++ " " ++ opts)%string
+        with (name ++ String " " (m ++ String " " (G ++ String " " opts)))%string.
+      rewrite (split_ws_word name _ Hnb Hne), (split_ws_word m _ Hmb Hme).
+      destruct (split_ws (G ++ String " " opts)) as [|x xs] eqn:E.
+      - exfalso. revert E. unfold split_ws. apply split_ws_aux_nonnil. right.
+        destruct opts as [|c r]; [discriminate|]. exists (G ++ " ")%string, c, r. split.
+        + rewrite append_assoc'. reflexivity.
+        + cbn in Ho. unfold nonblank, is_blank. ascii_cases c; cbv in Ho |- *; try reflexivity; discriminate.
+      - exists x, xs. reflexivity. }
+    (* not a LIKE card *)
+    assert (String.eqb (lower m) "like" = false) as Hlk.
+    { destruct m as [|c r]; [discriminate|]. cbn [all_chars] in Hm. apply andb_true_iff in Hm.
+      destruct Hm as [Hc _]. cbn [lower String.eqb].
+      replace (Ascii.eqb (lower_char c) "l") with false; [reflexivity|].
+      symmetry. clear - Hc. ascii_cases c; cbv in Hc |- *; try reflexivity; discriminate. }
+    (* options *)
+    assert (split_options txt = ((name ++ " " ++ m ++ " " ++ G ++ " ")%string, opts)) as Hso.
+    { unfold txt.
+      replace (name ++ " " ++ m ++ " " ++ G ++ " " ++ opts)%string
+        with ((name ++ " " ++ m ++ " " ++ G) ++ String " " opts)%string
+        by (rewrite !append_assoc'; reflexivity).
+      rewrite split_options_pre; [|rewrite !all_chars_app, Hnn, Hm, HG; reflexivity|exact Ho].
+      rewrite !append_assoc'. reflexivity. }
+    unfold card_of_text, cell_parts. fold txt. rewrite Hw, Hlk, Hso, Hfl. cbn [of_opt bind].
+    (* the body *)
+    destruct name as [|n0 name']; [discriminate|].
+    assert (is_blank n0 = false) as Hb0
+      by (cbn in Hnb; apply andb_true_iff in Hnb; destruct Hnb as [Hx _]; apply negb_true_iff in Hx; exact Hx).
+    rewrite (span_hd_fails is_blank) by exact Hb0.
+    set (name := String n0 name') in *.
+    change (name ++ " " ++ m ++ " " ++ G ++ " ")%string
+      with (name ++ String " " (m ++ String " " (G ++ " ")))%string.
+    rewrite (span_app_all is_digit name _ Hnd) by reflexivity.
+    change (String " " (m ++ String " " (G ++ " "))) with (" " ++ (m ++ String " " (G ++ " ")))%string.
+    rewrite (span_app_all is_blank " " (m ++ String " " (G ++ " "))); [|reflexivity|].
+    2:{ destruct m as [|c r]; [discriminate|]. cbn. cbn in Hmb. apply andb_true_iff in Hmb.
+        destruct Hmb as [Hx _]. apply negb_true_iff in Hx. exact Hx. }
+    rewrite (span_app_all (fun c => negb (is_blank c)) m (String " " (G ++ " ")) Hmb) by reflexivity.
+    unfold int_of_string. rewrite Hn. cbn [is_empty orb]. rewrite Hme, Hz. cbn [orb bind].
+    (* LIKE_RE *)
+    assert (all_chars nonletter (String " " (G ++ " ")) = true) as Hnl.
+    { cbn [all_chars]. rewrite all_chars_app. cbn.
+      rewrite (all_chars_impl nos nonletter G); [reflexivity| |exact HG].
+      intros c Hc. unfold nos, nonletter in *. apply negb_true_iff in Hc. apply orb_false_iff in Hc.
+      destruct Hc as [_ Hc]. rewrite Hc. reflexivity. }
+    unfold name at 1. cbv beta iota. cbn [bind]. cbv beta iota.
+    rewrite (lower_keeps_nonletter _ Hnl), (like_target_none _ Hnl). reflexivity.
+  Qed.
+
+  (* the same for a cell with a material: name, material number, density (a word
+     without letter, star or opening parenthesis), geometry, options *)
+  Theorem nonvoid_card_text name m rho G opts z :
+    all_digits name = true -> is_empty name = false ->
+    all_chars nos m = true -> all_chars nonblank m = true -> is_empty m = false ->
+    fl P m = Some z -> seqb Sc z (s0 Sc) = false ->
+    all_chars nos rho = true -> all_chars (fun c => negb (is_blank c || Ascii.eqb c "(")) rho = true ->
+    is_empty rho = false ->
+    all_chars nos G = true -> starts_option opts = true ->
+    card_of_text Sc P (name ++ " " ++ m ++ " " ++ rho ++ " " ++ G ++ " " ++ opts) =
+    Ok (Z.of_N (parse_digits name 0%N),
+        (Explicit (" " ++ m ++ " " ++ rho)%string (" " ++ G ++ " ")%string, opts)).
+  Proof.
+    intros Hn Hne Hm Hmb Hme Hfl Hz Hr Hrb Hre HG0 Ho.
+    set (G1 := (rho ++ " " ++ G)%string).
+    assert (all_chars nos G1 = true) as HG by (unfold G1; rewrite !all_chars_app, Hr, HG0; reflexivity).
+    pose proof (all_digits_chars name Hn) as Hnd.
+    assert (all_chars nos name = true /\ all_chars nonblank name = true) as [Hnn Hnb].
+    { split; eapply all_chars_impl; try exact Hnd; intros c Hc; apply (digit_nos c Hc). }
+    assert ((name ++ " " ++ m ++ " " ++ rho ++ " " ++ G ++ " " ++ opts)
+            = (name ++ " " ++ m ++ " " ++ G1 ++ " " ++ opts))%string as Etxt
+      by (unfold G1; rewrite !append_assoc'; reflexivity).
+    rewrite Etxt.
+    set (txt := (name ++ " " ++ m ++ " " ++ G1 ++ " " ++ opts)%string).
+    (* the words *)
+    assert (exists x xs, split_ws txt = name :: m :: x :: xs) as (x & xs & Hw).
+    { unfold txt. change (name ++ " " ++ m ++ " " ++ G1 ++ " " ++ opts)%string
+        with (name ++ String " " (m ++ String " " (G1 ++ String " " opts)))%string.
+      rewrite (split_ws_word name _ Hnb Hne), (split_ws_word m _ Hmb Hme).
+      destruct (split_ws (G1 ++ String " " opts)) as [|x xs] eqn:E.
+      - exfalso. revert E. unfold split_ws. apply split_ws_aux_nonnil. right.
+        destruct opts as [|c r]; [discriminate|]. exists (G1 ++ " ")%string, c, r. split.
+        + rewrite append_assoc'. reflexivity.
+        + cbn in Ho. unfold nonblank, is_blank. ascii_cases c; cbv in Ho |- *; try reflexivity; discriminate.
+      - exists x, xs. reflexivity. }
+    (* not a LIKE card *)
+    assert (String.eqb (lower m) "like" = false) as Hlk.
+    { destruct m as [|c r]; [discriminate|]. cbn [all_chars] in Hm. apply andb_true_iff in Hm.
+      destruct Hm as [Hc _]. cbn [lower String.eqb].
+      replace (Ascii.eqb (lower_char c) "l") with false; [reflexivity|].
+      symmetry. clear - Hc. ascii_cases c; cbv in Hc |- *; try reflexivity; discriminate. }
+    (* options *)
+    assert (split_options txt = ((name ++ " " ++ m ++ " " ++ G1 ++ " ")%string, opts)) as Hso.
+    { unfold txt.
+      replace (name ++ " " ++ m ++ " " ++ G1 ++ " " ++ opts)%string
+        with ((name ++ " " ++ m ++ " " ++ G1) ++ String " " opts)%string
+        by (rewrite !append_assoc'; reflexivity).
+      rewrite split_options_pre; [|rewrite !all_chars_app, Hnn, Hm, HG; reflexivity|exact Ho].
+      rewrite !append_assoc'. reflexivity. }
+    unfold card_of_text, cell_parts. fold txt. rewrite Hw, Hlk, Hso, Hfl. cbn [of_opt bind].
+    (* the body *)
+    destruct name as [|n0 name']; [discriminate|].
+    assert (is_blank n0 = false) as Hb0
+      by (cbn in Hnb; apply andb_true_iff in Hnb; destruct Hnb as [Hx _]; apply negb_true_iff in Hx; exact Hx).
+    rewrite (span_hd_fails is_blank) by exact Hb0.
+    set (name := String n0 name') in *.
+    change (name ++ " " ++ m ++ " " ++ G1 ++ " ")%string
+      with (name ++ String " " (m ++ String " " (G1 ++ " ")))%string.
+    rewrite (span_app_all is_digit name _ Hnd) by reflexivity.
+    change (String " " (m ++ String " " (G1 ++ " "))) with (" " ++ (m ++ String " " (G1 ++ " ")))%string.
+    rewrite (span_app_all is_blank " " (m ++ String " " (G1 ++ " "))); [|reflexivity|].
+    2:{ destruct m as [|c r]; [discriminate|]. cbn. cbn in Hmb. apply andb_true_iff in Hmb.
+        destruct Hmb as [Hx _]. apply negb_true_iff in Hx. exact Hx. }
+    rewrite (span_app_all (fun c => negb (is_blank c)) m (String " " (G1 ++ " ")) Hmb) by reflexivity.
+    unfold int_of_string. rewrite Hn. cbn [is_empty orb]. rewrite Hme, Hz. cbn [orb].
+    change (String " " (G1 ++ " ")) with (" " ++ (G1 ++ " "))%string.
+    rewrite (span_app_all is_blank " " (G1 ++ " ")); [|reflexivity|].
+    2:{ unfold G1. destruct rho as [|c r]; [discriminate|]. cbn. cbn in Hrb. apply andb_true_iff in Hrb.
+        destruct Hrb as [Hx _]. apply negb_true_iff in Hx. apply orb_false_iff in Hx. exact (proj1 Hx). }
+    replace (G1 ++ " ")%string with (rho ++ (" " ++ G ++ " "))%string
+      by (unfold G1; rewrite !append_assoc'; reflexivity).
+    rewrite (span_app_all (fun c => negb (is_blank c || Ascii.eqb c "(")) rho (" " ++ G ++ " ") Hrb) by reflexivity.
+    cbn [is_empty orb]. rewrite Hre.
+    assert (all_chars nonletter (" " ++ G ++ " ") = true) as Hnl.
+    { cbn [append all_chars]. rewrite all_chars_app. cbn.
+      rewrite (all_chars_impl nos nonletter G); [reflexivity| |exact HG0].
+      intros c Hc. unfold nos, nonletter in *. apply negb_true_iff in Hc. apply orb_false_iff in Hc.
+      destruct Hc as [_ Hc]. rewrite Hc. reflexivity. }
+    unfold name at 1. cbv beta iota. cbn [bind]. cbv beta iota.
+    rewrite (lower_keeps_nonletter _ Hnl), (like_target_none _ Hnl).
+    rewrite ?append_assoc'. reflexivity.
+  Qed.
+
+
+  (* ---- a LIKE n BUT card ---- *)
+  Lemma split_last_but_pre pre : forall x a b,
+    split_last_but x = Some (a, b) -> split_last_but (pre ++ x) = Some ((pre ++ a)%string, b).
+  Proof.
+    induction pre as [|c r IH]; intros x a b H; [exact H|].
+    cbn [append split_last_but]. rewrite (IH x a b H). reflexivity.
+  Qed.
+
+  Lemma lower_three (B : string) : lower B = "but" ->
+    exists c1 c2 c3, B = String c1 (String c2 (String c3 "")) /\
+                     lower_char c1 = "b"%char /\ lower_char c2 = "u"%char /\ lower_char c3 = "t"%char.
+  Proof.
+    destruct B as [|c1 [|c2 [|c3 [|c4 r]]]]; cbn; intros H; try discriminate.
+    injection H as H1 H2 H3. exists c1, c2, c3. repeat split; assumption.
+  Qed.
+
+  Lemma split_last_but_here B rest :
+    lower B = "but" -> split_last_but rest = None ->
+    split_last_but (B ++ rest) = Some (B, rest).
+  Proof.
+    intros HB Hr. destruct (lower_three B HB) as (c1 & c2 & c3 & -> & H1 & H2 & H3).
+    cbn [append split_last_but]. rewrite Hr. cbn [lower String.prefix]. rewrite H1, H2, H3.
+    destruct (ascii_dec "b" "t"); [discriminate|].
+    destruct (ascii_dec "b" "u"); [discriminate|].
+    destruct (ascii_dec "b" "b"); [|congruence].
+    destruct (ascii_dec "u" "u"); [|congruence].
+    destruct (ascii_dec "t" "t"); [|congruence].
+    destruct (lower rest); cbn; destruct rest; reflexivity.
+  Qed.
+
+  Lemma lower_digits ds : all_digits ds = true -> lower ds = ds.
+  Proof.
+    induction ds as [|c r IH]; [reflexivity|]. cbn. intros H. apply andb_true_iff in H.
+    destruct H as [Hc Hr]. rewrite (IH Hr). f_equal. clear - Hc. ascii_cases c; cbv in Hc |- *; try reflexivity; discriminate.
+  Qed.
+
+  Lemma prefix_app' (p x : string) : String.prefix p (p ++ x)%string = true.
+  Proof.
+    induction p as [|c r IH]; [destruct x; reflexivity|].
+    cbn [append String.prefix]. destruct (ascii_dec c c); [exact IH|congruence].
+  Qed.
+
+  Lemma like_target_canon ds :
+    all_digits ds = true -> is_empty ds = false ->
+    like_target (" like " ++ ds ++ " but") = Some (Z.of_N (parse_digits ds 0%N)).
+  Proof.
+    intros Hd Hde. pose proof (all_digits_chars ds Hd) as Hdd.
+    change (" like " ++ ds ++ " but")%string with (String " " ("like" ++ (" " ++ (ds ++ " but"))))%string.
+    unfold like_target at 1; fold like_target.
+    assert (like_here (String " " ("like" ++ (" " ++ (ds ++ " but")))) = None) as ->.
+    { unfold like_here. cbn [String.prefix]. destruct (ascii_dec "l" " "); [discriminate|reflexivity]. }
+    assert (like_here ("like" ++ (" " ++ (ds ++ " but"))) = Some (Z.of_N (parse_digits ds 0%N))) as Hh.
+    { unfold like_here. rewrite prefix_app'.
+      change (drop_n 4 ("like" ++ (" " ++ (ds ++ " but")))) with (" " ++ (ds ++ " but"))%string.
+      rewrite (span_app_all is_blank " " (ds ++ " but")); [|reflexivity|].
+      2:{ destruct ds as [|c r]; [discriminate|]. cbn. cbn in Hdd. apply andb_true_iff in Hdd.
+          destruct (digit_nos c (proj1 Hdd)) as [_ Hx]. apply negb_true_iff in Hx. exact Hx. }
+      rewrite (span_app_all is_digit ds " but" Hdd) by reflexivity.
+      change " but" with (" " ++ "but")%string.
+      rewrite (span_app_all is_blank " " "but") by reflexivity.
+      cbn [is_empty orb].
+      replace (String.prefix "but" "but") with true by (symmetry; apply (prefix_app' "but" "")).
+      cbn [orb negb]. unfold int_of_string. rewrite Hd. destruct ds; [discriminate|]. reflexivity. }
+    destruct ("like" ++ (" " ++ (ds ++ " but")))%string eqn:E; [discriminate|].
+    unfold like_target; fold like_target. rewrite Hh. reflexivity.
+  Qed.
+
+  (* name LIKE n BUT options: cellcard.split (re_likebut) + LIKE_RE give the card
+     Like n with the BUT options, provided "but" does not occur again in them *)
+  Theorem like_card_text name L ds B rest :
+    all_digits name = true -> is_empty name = false -> lower L = "like" ->
+    all_digits ds = true -> is_empty ds = false -> lower B = "but" ->
+    split_last_but rest = None ->
+    card_of_text Sc P (name ++ " " ++ L ++ " " ++ ds ++ " " ++ B ++ rest) =
+    Ok (Z.of_N (parse_digits name 0%N), (Like (Z.of_N (parse_digits ds 0%N)), rest)).
+  Proof.
+    intros Hn Hne HL Hd Hde HB Hrest.
+    pose proof (all_digits_chars name Hn) as Hnd. pose proof (all_digits_chars ds Hd) as Hdd.
+    assert (all_chars nonblank name = true) as Hnb
+      by (eapply all_chars_impl; [|exact Hnd]; intros c Hc; apply (digit_nos c Hc)).
+    assert (all_chars nonblank L = true /\ is_empty L = false) as [HLb HLe].
+    { destruct L as [|a [|b [|c [|d [|e r]]]]]; cbn in HL; try discriminate.
+      injection HL as H1 H2 H3 H4. split; [|reflexivity]. cbn.
+      assert (forall x y, lower_char x = y -> is_letter y = true -> nonblank x = true) as Hx
+        by (intros x y <- ; clear; ascii_cases x; cbv; intros; try reflexivity; discriminate).
+      rewrite (Hx a "l"%char H1 eq_refl), (Hx b "i"%char H2 eq_refl), (Hx c "k"%char H3 eq_refl),
+        (Hx d "e"%char H4 eq_refl). reflexivity. }
+    set (txt := (name ++ " " ++ L ++ " " ++ ds ++ " " ++ B ++ rest)%string).
+    assert (exists x xs, split_ws txt = name :: L :: x :: xs) as (x & xs & Hw).
+    { unfold txt. change (name ++ " " ++ L ++ " " ++ ds ++ " " ++ B ++ rest)%string
+        with (name ++ String " " (L ++ String " " (ds ++ String " " (B ++ rest))))%string.
+      rewrite (split_ws_word name _ Hnb Hne), (split_ws_word L _ HLb HLe).
+      destruct (split_ws (ds ++ String " " (B ++ rest))) as [|x xs] eqn:E.
+      - exfalso. revert E. unfold split_ws. apply split_ws_aux_nonnil. right.
+        destruct ds as [|c r]; [discriminate|]. exists "", c, (r ++ String " " (B ++ rest))%string.
+        split; [reflexivity|]. cbn in Hdd. apply andb_true_iff in Hdd. apply (digit_nos c (proj1 Hdd)).
+      - exists x, xs. reflexivity. }
+    unfold card_of_text, cell_parts. fold txt. rewrite Hw, HL. cbn [String.eqb Ascii.eqb Bool.eqb].
+    replace ("like" =? "like") with true by reflexivity.
+    destruct name as [|n0 name']; [discriminate|].
+    assert (is_blank n0 = false) as Hb0
+      by (cbn in Hnb; apply andb_true_iff in Hnb; destruct Hnb as [Hx _]; apply negb_true_iff in Hx; exact Hx).
+    unfold txt. rewrite (span_hd_fails is_blank) by exact Hb0.
+    set (name := String n0 name') in *.
+    change (name ++ " " ++ L ++ " " ++ ds ++ " " ++ B ++ rest)%string
+      with (name ++ String " " (L ++ " " ++ ds ++ " " ++ B ++ rest))%string.
+    rewrite (span_app_all is_digit name _ Hnd) by reflexivity.
+    unfold int_of_string. rewrite Hn.
+    replace (String " " (L ++ " " ++ ds ++ " " ++ B ++ rest))
+      with ((" " ++ L ++ " " ++ ds ++ " ") ++ (B ++ rest))%string
+      by (rewrite !append_assoc'; reflexivity).
+    rewrite (split_last_but_pre _ _ _ _ (split_last_but_here B rest HB Hrest)).
+    unfold name at 1. cbv beta iota. cbn [bind]. cbv beta iota.
+    (* LIKE_RE on the lower-cased geometry part " like n but" *)
+    assert (lower ((" " ++ L ++ " " ++ ds ++ " ") ++ B) = (" like " ++ ds ++ " but")%string) as ->.
+    { rewrite !lower_app, HL, HB, (lower_digits ds Hd). cbn [lower].
+      replace (lower_char " ") with " "%char by reflexivity.
+      rewrite !append_assoc'. reflexivity. }
+    rewrite (like_target_canon ds Hd Hde). reflexivity.
+  Qed.
+End CellText.
